@@ -106,7 +106,7 @@ class _Real:
 
         def chooser(pos, d):
             return (picks[pos] if pos < len(picks) else 0) % d.count
-        with rsource.ScriptedRandom(m.random, chooser) as src:
+        with rsource.ScriptedRandom(rsource.random_module(m), chooser) as src:
             obj = gen.generate()
             if not src.trace:
                 raise HarnessError(f"{k}: generate() made no observable draw; history would not be replayable")
